@@ -108,7 +108,7 @@ Definition parse_state (dbg : bool) := parse_state_fixed.
 (* tags: S state, H transposition hash, F from-scratch hash, V valid_actions, N no-rep,
    T terminal/has_move/can_pass, K previews, B earlier boards, D diagram, R re-parse, E equality *)
 Definition tagS := 83. Definition tagH := 72. Definition tagF := 70. Definition tagV := 86.
-Definition tagN := 78. Definition tagT := 84. Definition tagK := 75. Definition tagB := 66. Definition tagW := 87.
+Definition tagN := 78. Definition tagT := 84. Definition tagK := 75. Definition tagB := 66. Definition tagW := 87. Definition tagL := 76.
 Definition tagD := 68. Definition tagR := 82. Definition tagE := 69.
 
 Definition from_scratch (s : state) : N :=
@@ -146,7 +146,9 @@ Definition observe (dbg : bool) (s : state) : list (N * list N) :=
   let r := parse_state dbg d in
   [ (tagD, d);
     (tagR, enc_outcome enc_state r);
-    (tagE, match r with Ok s' => [enc_bool (state_eqb s s'); transposition_hash s'] | _ => [] end) ].
+    (tagE, match r with Ok s' => [enc_bool (state_eqb s s'); transposition_hash s'] | _ => [] end);
+    (* Clone::clone_from onto another state yields the source state, field by field *)
+    (tagL, enc_state s) ].
 
 (* ---- string cases: Q <parser> <code points> ---- *)
 Definition enc_square_full (s : square) : list N := [s].
